@@ -122,6 +122,9 @@ def callee_src(sigs, decl_only=False):
         for i, t in enumerate(sg.params):
             for (path, s, bits) in (sg.leaves(t, 'p%d' % i) if isinstance(t, Agg) else [('p%d' % i, t.s, None)]):
                 body.append(dump_leaf(sg.k * 1000 + i * 20 + min(n, 19) * 0 + i, path, s, bits))
+                if s == 'f80' and not decl_only:
+                    # conversions of the received value: the callee must hand the x87 control word back as it got it
+                    body.append('{ volatile long cv%d_%d = (long)(%s / 1e4000L == 0 ? %s : 0); volatile unsigned short cs%d_%d = (unsigned short)(%s == %s ? 7.9L : 1.5L); }' % (i, n, path, path, i, n, path, path))
                 n += 1
         if sg.var:
             body.append('va_list ap; va_start(ap, p%d);' % (len(sg.params) - 1))
@@ -363,6 +366,28 @@ def build_pair(a):
     return idx, outs, errs
 
 
+UNPROTO_CALLEE = HDR + '''
+double uf0(double a, double b, int c, int d, long e, double f) { OUT(1, &a, 8); OUT(2, &b, 8); OUTV(3, c); OUTV(4, d); OUTV(5, e); OUT(6, &f, 8); return a + b; }
+int uf1(int a, double x, int b, unsigned c, double y, double z, double w) { OUTV(11, a); OUT(12, &x, 8); OUTV(13, b); OUTV(14, c); OUT(15, &y, 8); OUT(16, &z, 8); OUT(17, &w, 8); return a + b; }
+long double uf2(double a, long double b, int c) { OUT(21, &a, 8); OUT(22, &b, 10); OUTV(23, c); return b + a; }
+'''
+UNPROTO_CALLER = HDR + '''
+/* calls through declarations without a prototype: the default argument promotions apply (float -> double, narrow integers -> int) */
+double uf0(); int uf1(); long double uf2();
+void caller_entry(void) {
+  float f = 1.5f, g = 0.1f; char c = -3; short s = 300; _Bool t = 1; unsigned char uc = 200; unsigned short us = 65000; signed char sc = -100;
+  dirty_stack();
+  double r = uf0(f, g, c, s, 5L, 2.5f); OUT(7, &r, 8);
+  double (*fp)() = uf0; r = fp(g, f, uc, t, 7L, f); OUT(8, &r, 8);
+  r = (*fp)(f + g, -f, sc, us, (long)s, g * g); OUT(9, &r, 8);
+  int q = uf1(c, f, us, uc, g, f, -g); OUTV(18, q);
+  int (*ip)() = uf1; q = ip(t, g, sc, us, f, g, f); OUTV(19, q);
+  long double l = uf2(f, 2.5L, c); OUT(24, &l, 10);
+  long double (*lp)() = uf2; l = lp(g, (long double)f, uc); OUT(25, &l, 10);
+}
+'''
+
+
 def run(ctx):
     cc = ctx.build('plain')
     work = ctx.tmpdir('c06')
@@ -390,9 +415,29 @@ def run(ctx):
         caller_c = HDR + '\n'.join(td) + '\n' + protos + '\n' + caller_src(chunk, rng)
         chunks.append((chunk, callee_c, caller_c))
         jobs.append((len(jobs), cc, work, callee_c, caller_c))
+    jobs.append((len(jobs), cc, work, UNPROTO_CALLEE, UNPROTO_CALLER))
     results = core.pmap(build_pair, jobs)
     probes_n = 0
     for idx, outs, errs in results:
+        if idx == len(chunks):
+            # the unprototyped-call pair: every direction must print what gcc -> gcc prints
+            outs = {k: (v[0], '\n'.join(l for l in v[1].split('\n') if not l.startswith('PROBES'))) if v and isinstance(v[1], str) else v for k, v in outs.items()}
+            ref = outs.get(('gcc', 'gcc'))
+            files = {'callee.c': UNPROTO_CALLEE, 'caller.c': UNPROTO_CALLER, 'main.c': MAIN}
+            if errs or ref is None or ref != outs.get(('clang', 'clang')):
+                if any(k[0] == 'chibicc' for k in errs):
+                    ctx.violation('C06|compile|unprototyped-call', 'chibicc cannot compile calls through unprototyped declarations: ' + core.first_line(list(errs.values())[0]), files=files)
+                else:
+                    raise core.Inconclusive('unprototyped-call pair: references fail or disagree: ' + str(errs)[:300])
+                continue
+            for d in (('chibicc', 'chibicc'), ('chibicc', 'gcc'), ('gcc', 'chibicc')):
+                ctx.saw(('unprototyped-call',) + d)
+                ctx.evaluations += 1
+                o = outs.get(d)
+                if o != ref:
+                    fd = core.first_diff((o[1] if o and isinstance(o[1], str) else str(o)).encode(), ref[1].encode())
+                    ctx.violation('C06|%s->%s|unprototyped-call|arg' % d, 'default argument promotions through an unprototyped declaration: line %s: got %s, gcc->gcc %s' % (fd and fd[0], fd and fd[1], fd and fd[2]), files=files)
+            continue
         chunk, callee_c, caller_c = chunks[idx]
         files = {'callee.c': callee_c, 'caller.c': caller_c, 'main.c': MAIN}
         script = ('I=-I$VERIF/rt; gcc -w -c $I main.c -o main.o; for u in callee caller; do CHIBICC_VERIF_PROBES=1 $CHIBICC $I -c -o $u.x.o $u.c || exit 1; gcc -std=gnu11 -w $I -c -o $u.g.o $u.c; done; '
